@@ -183,9 +183,14 @@ pub enum ParserOperationTree {
 
 pub type ParserResult<T> = Result<T, ParserError>;
 
+/// The maximum nesting depth (parentheses, function arguments, operator chains) of an expression.
+/// Deeper expressions are rejected with an error instead of exhausting the stack.
+pub const MAX_EXPRESSION_DEPTH: usize = 128;
+
 pub struct Parser<'a> {
     tokens: Vec<ParserToken>,
     index: isize,
+    depth: usize,
     binary_operators: &'a BinaryOperators,
     unary_operators: &'a UnaryOperators
 }
@@ -197,6 +202,7 @@ impl<'a> Parser<'a> {
         Parser {
             tokens,
             index: -1,
+            depth: 0,
             binary_operators,
             unary_operators
         }
@@ -208,6 +214,7 @@ impl<'a> Parser<'a> {
         Parser {
             tokens: tokens.into_iter().map(|token| ParserToken::new(0, 0, token)).collect(),
             index: -1,
+            depth: 0,
             binary_operators,
             unary_operators
         }
@@ -716,7 +723,23 @@ impl<'a> Parser<'a> {
         self.parse_binary_operator_rhs(0, lhs)
     }
 
+    fn enter_nesting(&mut self) -> ParserResult<()> {
+        self.depth += 1;
+        if self.depth > MAX_EXPRESSION_DEPTH {
+            return Err(self.create_error(ParserErrorType::TooDeepExpression(MAX_EXPRESSION_DEPTH)));
+        }
+
+        Ok(())
+    }
+
     fn parse_binary_operator_rhs(&mut self, precedence: i32, lhs: ParserExpressionTree) -> ParserResult<ParserExpressionTree> {
+        let start_depth = self.depth;
+        let result = self.parse_binary_operator_rhs_internal(precedence, lhs);
+        self.depth = start_depth;
+        result
+    }
+
+    fn parse_binary_operator_rhs_internal(&mut self, precedence: i32, lhs: ParserExpressionTree) -> ParserResult<ParserExpressionTree> {
         let mut lhs = lhs;
         loop {
             let token_precedence = self.get_token_precedence()?;
@@ -724,6 +747,9 @@ impl<'a> Parser<'a> {
             if token_precedence < precedence {
                 return Ok(lhs);
             }
+
+            // Every operator of a chain nests the left operand one level deeper
+            self.enter_nesting()?;
 
             let op_location = self.current_location();
             let op = self.current().clone();
@@ -939,6 +965,14 @@ impl<'a> Parser<'a> {
     }
 
     fn parse_unary_operator(&mut self) -> ParserResult<ParserExpressionTree> {
+        let start_depth = self.depth;
+        self.enter_nesting()?;
+        let result = self.parse_unary_operator_internal();
+        self.depth = start_depth;
+        result
+    }
+
+    fn parse_unary_operator_internal(&mut self) -> ParserResult<ParserExpressionTree> {
         match self.current() {
             Token::Operator(_) | Token::Keyword(Keyword::Not) => {},
             _ => return self.parse_primary_expression()
